@@ -114,6 +114,12 @@ def generate(rng, tier):
         ('include-bad-args', ['parse_buf 0 ' + hx(b'include()\n'), 'parse_buf 0 ' + hx(b'include(a, b)\n')]),
         ('include-unterminated', ['file %s file %s' % (hx(b'u.conf'), hx(b's = "abc')), 'parse_buf 0 ' + hx(b'include("u.conf")\ni = 2\n')]),
         ('include-in-section', ['file %s file %s' % (hx(b'x.conf'), hx(b'a = 9\n')), 'parse_buf 0 ' + hx(b'sec { include("x.conf") }\n')]),
+        ('readerr-between', ['parse_fpfail 0 ' + hx(b'i = 4\n')]),
+        ('readerr-in-string', ['parse_fpfail 0 ' + hx(b's = "abc')]),
+        ('readerr-in-sq', ['parse_fpfail 0 ' + hx(b"s = 'abc")]),
+        ('readerr-in-comment', ['parse_fpfail 0 ' + hx(b'i = 2 /* abc')]),
+        ('readerr-in-list', ['parse_fpfail 0 ' + hx(b'il = {1,')]),
+        ('readerr-empty', ['parse_fpfail 0 .']),
         ('null-buffer', ['parse_buf 0 -']),
         ('empty-buffer', ['parse_buf 0 .']),
     ]
